@@ -184,6 +184,12 @@ def deleteAt (s : State) (k : Nat) : Outcome State :=
     | none => .err "no-rootmain"
     | some idx => .ok { s with hdr := adel s.hdr idx, rootMain := adel s.rootMain (c.root, k), cons := adel s.cons k }
 
+/-- the prune pass followed by the deletion, as run by `CheckHeaderAndUpdateState` after `checkValidity` -/
+def pruneStep (s : State) (now : Nat) : Outcome State :=
+  match pruneHeight s now with
+  | none => .ok s
+  | some k => deleteAt s k
+
 /-! ### update / RestrictChain -/
 
 /-- `update`: index writes -/
@@ -292,11 +298,7 @@ def updateClient (v : Variant) (env : Env) (now : Nat) (s : State) (h : Header) 
     | .err e => .err e
     | .panic p => .panic p
     | .ok =>
-      let pruned : Outcome State :=
-        match pruneHeight s now with
-        | none => .ok s
-        | some k => deleteAt s k
-      match pruned with
+      match pruneStep s now with
       | .err e => .err e
       | .panic p => .panic p
       | .ok s1 =>
